@@ -151,3 +151,41 @@ Proof.
   intros scripts sched more t th o c s Ht Ho Hp Hd Hn. cbn zeta. unfold exec. rewrite run_app.
   eapply released_stays; eauto. apply exec_inv.
 Qed.
+
+(* ------------------------------------------------------------------ *)
+(* An arrival on a key nobody is executing on never waits: whatever goes on under OTHER keys (any number of
+   them busy, with any number of waiters), a caller that reaches the lookup while no thread is inside an
+   execution for its (group, key) registers as the leader at once.  (Striped locks, a table indexed by a
+   truncated hash: Pinned.striped_locks_block_another_key_refuted.) *)
+Lemma idle_key_no_entry s g k :
+  Inv s ->
+  (forall t' th' o', nth_error (threads s) t' = Some th' -> cur_op th' = Some o' ->
+                     ogrp o' = g -> okey o' = k -> owner_pc (tpc th') = None) ->
+  calls s g k = None.
+Proof.
+  intros HI Hno. destruct (calls s g k) as [c|] eqn:Ec; [|reflexivity]. exfalso.
+  destruct (inv_map s HI g k c Ec) as (_ & th & o & Hn & _ & Hop & Ho & Hg & Hk).
+  rewrite (Hno _ th o Hn Ho Hg Hk) in Hop. discriminate.
+Qed.
+
+(* the thread is inside an execution it leads (registered ... about to delete its entry) *)
+Definition in_execution (p : pc) : bool :=
+  match p with
+  | PLead _ | PInFn _ | PRmCreate _ | PRmStore _ _ | PFnDone _ _ => true
+  | _ => false
+  end.
+
+Lemma arrival_on_idle_key_leads_l : forall scripts sched t th o,
+  let s := exec scripts sched in
+  nth_error (threads s) t = Some th -> cur_op th = Some o -> tpc th = PCalled ->
+  (forall t' th' o', nth_error (threads s) t' = Some th' -> cur_op th' = Some o' ->
+                     ogrp o' = ogrp o -> okey o' = okey o -> in_execution (tpc th') = false) ->
+  exists s' th2 c, step s t = Some s' /\ nth_error (threads s') t = Some th2 /\ tpc th2 = PLead c.
+Proof.
+  intros scripts sched t th o s Ht Ho Hp Hno.
+  assert (Hc : calls s (ogrp o) (okey o) = None).
+  { apply idle_key_no_entry; [apply exec_inv|]. intros t' th' o' A B C D.
+    specialize (Hno t' th' o' A B C D). destruct (tpc th'); cbn in *; try reflexivity; discriminate. }
+  unfold step. rewrite Ht, Ho, Hp, Hc. eexists. eexists. eexists.
+  split; [reflexivity|]. cbn. split; [eapply nth_error_upd_nth_eq; exact Ht|reflexivity].
+Qed.
